@@ -33,9 +33,12 @@ func (r *c06reader) point(kind string) {
 		return
 	}
 	h.tree.mtx.Unlock()
-	c := r.counter
 	r.counter++
-	if c != r.inject || r.ran {
+	if r.ran || r.counter > r.inject {
+		return
+	}
+	// run the reader here, or let the writer go on to its next injection point
+	if vChoice("inject", 2) == 0 {
 		return
 	}
 	r.ran = true
@@ -106,15 +109,15 @@ func C06_Inject() {
 	cfg := &vHistCfg{name: "C06_Inject", nKeys: 2, lenVars: 1, valVars: 1,
 		caches: []int{0, 10000}, fast: []bool{false, true}, thresh: []int{0}, refHash: true}
 	maxV, maxW := 2, 1
-	maxPoints := 24
+	maxPoints := 40
 	if vTier() == "thorough" {
 		cfg.nKeys = 3
-		maxPoints = 32
+		maxPoints = 80
 	}
 	h := vStartHist(cfg)
 	h.vBuildVersions(maxV, maxW)
 	n := h.p.n
-	r := &c06reader{h: h, inject: vChoice("inject", maxPoints+1), kind: vChoice("reader", 5), key: vChoice("rkey", n)}
+	r := &c06reader{h: h, inject: maxPoints, kind: vChoice("reader", 5), key: vChoice("rkey", n)}
 	op := vChoice("writer", 4)
 	pruneTo := int64(0)
 	lo := h.first
@@ -147,7 +150,7 @@ func C06_Inject() {
 	}
 	h.db.onCall = nil
 	verifHook = nil
-	vAssert(r.counter <= maxPoints+1, "c06:writer-has-more-injection-points-than-explored")
+	vAssert(r.counter <= maxPoints, "c06:writer-has-more-injection-points-than-explored")
 	if r.ran {
 		vCover("reader-injected")
 	} else {
@@ -215,4 +218,197 @@ func C06_Pinning() {
 		other.Close()
 	}
 	vCover("pinned-delete-rejected")
+}
+
+var _ = vReg("C06_PreemptReader", C06_PreemptReader)
+
+// c06writer is the dual of c06reader: one complete writer operation is run in the middle of a reader
+// call, at a symbolic one of the reader's storage calls (before the call, or after it has been answered)
+// at which the reader holds no lock the writer needs. This is every schedule of one reader call and one
+// writer operation in which the writer operation is not itself preempted.
+type c06writer struct {
+	h        *vHist
+	op       int
+	key      int
+	pruneTo  int64
+	inject   int
+	counter  int
+	ran      bool
+	fastIter bool // the reader call iterates the latest version with the fast index on
+	phase    int  // 0: the reader is obtaining its version, 1: it is reading it
+	f21      bool // region of finding F21
+}
+
+// l labels the reader's own assertions inside the region of finding F21: a reader of the latest version
+// that has decided to use the fast index (IsFastCacheEnabled) is preempted by a commit before it has
+// opened the storage iterator, and then iterates the next version's index.
+func (w *c06writer) l(label string) string {
+	if w.f21 {
+		return "F21:reader-of-the-latest-version-preempted-by-a-commit-between-choosing-and-opening-the-fast-iterator"
+	}
+	return label
+}
+
+func (w *c06writer) point(kind string) {
+	h := w.h
+	// a writer that needs a lock the reader holds simply waits: not an injection point
+	if !h.tree.ndb.mtx.TryLock() {
+		return
+	}
+	h.tree.ndb.mtx.Unlock()
+	if !h.tree.mtx.TryLock() {
+		return
+	}
+	h.tree.mtx.Unlock()
+	w.counter++
+	if w.ran || w.counter > w.inject {
+		return
+	}
+	// preempt the reader here, or let it go on to its next storage call
+	if vChoice("preempt", 2) == 0 {
+		return
+	}
+	w.ran = true
+	if w.phase == 1 && w.op <= 1 && w.fastIter {
+		w.f21 = true
+	}
+	switch w.op {
+	case 0:
+		h.doSet(w.key)
+		h.doCommit()
+	case 1:
+		h.doRemove(w.key)
+		h.doCommit()
+	case 2:
+		h.doSet(w.key) // uncommitted
+	case 3:
+		err := h.tree.DeleteVersionsTo(w.pruneTo)
+		vAssert(err == nil, "c06w:prune-err")
+		for v := h.first; v <= w.pruneTo; v++ {
+			delete(h.vers, v)
+			delete(h.refRoots, v)
+			delete(h.refHash, v)
+		}
+		h.first = w.pruneTo + 1
+	}
+}
+
+func C06_PreemptReader() {
+	cfg := &vHistCfg{name: "C06_PreemptReader", nKeys: 2, lenVars: 1, valVars: 1,
+		caches: []int{0, 10000}, fast: []bool{false, true}, thresh: []int{0}, refHash: true, auditOld: true}
+	maxV, maxW := 2, 1
+	maxPoints := 40
+	if vTier() == "thorough" {
+		cfg.nKeys = 3
+		maxPoints = 80
+	}
+	h := vStartHist(cfg)
+	h.vBuildVersions(maxV, maxW)
+	n := h.p.n
+	// cold caches (a restart) make every read of the reader a storage call, i.e. a preemption point
+	if vTier() != "thorough" || vChoice("reopen", 2) == 1 {
+		h.doReopen()
+	}
+	w := &c06writer{h: h, inject: maxPoints, op: vChoice("writer", 4), key: vChoice("wkey", n)}
+	lo := h.first
+	if w.op == 3 {
+		if h.latest < 2 {
+			vStop()
+		}
+		w.pruneTo = h.first + int64(vChoice("pruneTo", int(h.latest-h.first)))
+		lo = w.pruneTo + 1 // the reader reads a version that is not being deleted
+	}
+	rv := lo + int64(vChoice("rversion", int(h.latest-lo+1)))
+	kind := vChoice("reader", 6)
+	rkey := vChoice("rkey", n)
+	m := h.vers[rv]
+	wasLatest := rv == h.latest
+	k := h.p.keys[rkey]
+	h.db.onCall = w.point
+	h.db.onDone = w.point
+	if kind == 5 {
+		val, err := h.tree.GetVersioned(k, rv)
+		vAssert(err == nil, "c06w:getversioned-err")
+		if m.present[rkey] {
+			vAssert(vAnd(val != nil, vEqBytes(val, m.vals[rkey])), "c06w:getversioned-value")
+		} else {
+			vAssert(val == nil, "c06w:getversioned-phantom")
+		}
+	} else {
+		it, err := h.tree.GetImmutable(rv)
+		vAssert(err == nil, "c06w:getimmutable")
+		w.fastIter = wasLatest && h.fastOn && (kind == 3 || kind == 4) && !w.ran
+		w.phase = 1
+		if err == nil {
+			switch kind {
+			case 0:
+				val, err := it.Get(k)
+				vAssert(err == nil, "c06w:get-err")
+				if m.present[rkey] {
+					vAssert(vAnd(val != nil, vEqBytes(val, m.vals[rkey])), "c06w:get-value")
+				} else {
+					vAssert(val == nil, "c06w:get-phantom")
+				}
+			case 1:
+				has, err := it.Has(k)
+				vAssert(err == nil, "c06w:has-err")
+				vAssert(has == m.present[rkey], "c06w:has")
+			case 2:
+				idx, val, err := it.GetWithIndex(k)
+				vAssert(err == nil, "c06w:getwithindex-err")
+				vAssert(idx == int64(m.rankOf(rkey)), "c06w:getwithindex-index")
+				vAssert((val != nil) == m.present[rkey], "c06w:getwithindex-presence")
+			case 3:
+				pos := 0
+				_, err := it.Iterate(func(key, value []byte) bool {
+					i := m.nth(n, pos)
+					vAssert(i >= 0, w.l("c06w:iterate-extra"))
+					if i >= 0 {
+						vAssert(vEqBytes(key, h.p.keys[i]), w.l("c06w:iterate-key"))
+						vAssert(vEqBytes(value, m.vals[i]), w.l("c06w:iterate-value"))
+					}
+					pos++
+					return false
+				})
+				vAssert(err == nil, "c06w:iterate-err")
+				vAssert(pos == m.size(n), w.l("c06w:iterate-count"))
+			case 4:
+				pos := 0
+				itr, err := it.Iterator(nil, nil, true)
+				vAssert(err == nil, "c06w:iterator-err")
+				if err == nil {
+					for ; itr.Valid(); itr.Next() {
+						i := m.nth(n, pos)
+						vAssert(i >= 0, w.l("c06w:iterator-extra"))
+						if i >= 0 {
+							vAssert(vEqBytes(itr.Key(), h.p.keys[i]), w.l("c06w:iterator-key"))
+							vAssert(vEqBytes(itr.Value(), m.vals[i]), w.l("c06w:iterator-value"))
+						}
+						pos++
+					}
+					vAssert(itr.Error() == nil, "c06w:iterator-error")
+					itr.Close()
+					vAssert(pos == m.size(n), w.l("c06w:iterator-count"))
+				}
+			}
+		}
+	}
+	h.db.onCall = nil
+	h.db.onDone = nil
+	vAssert(w.counter <= maxPoints, "c06w:reader-has-more-injection-points-than-explored")
+	if w.ran {
+		vCover("writer-injected")
+	} else {
+		vCover("writer-not-injected")
+	}
+	// whatever the reader left in the shared caches, every version still reads correctly through
+	// every path, also after one more commit
+	h.audit()
+	c07Coherent(h, "c06w:after")
+	if !w.ran || w.op != 2 {
+		h.doSet(vChoice("key2", n))
+	}
+	h.doCommit()
+	h.audit()
+	c07Coherent(h, "c06w:after-commit")
 }
